@@ -41,6 +41,15 @@ fn observe<I: Iterator<Item = NaiveDate> + DoubleEndedIterator + Clone>(mut it: 
     }
     vtup(vec![vopt(item, enc_date), if over { Val::None } else { vsome(vint(cnt as u64)) }])
 }
+/// `nth(n)` / `nth_back(n)` (the provided adaptor methods), then what the iterator still yields
+fn observe_nth<I: Iterator<Item = NaiveDate> + DoubleEndedIterator + Clone>(mut it: I, n: usize, fwd: bool, cap: usize) -> Val {
+    let first = if fwd { it.nth(n) } else { it.nth_back(n) };
+    let rest = observe(it, 0, fwd, cap);
+    match rest {
+        Val::Tup(mut v) => { v.insert(0, vopt(first, enc_date)); Val::Tup(v) }
+        other => other,
+    }
+}
 fn hint<I: Iterator<Item = NaiveDate> + DoubleEndedIterator>(mut it: I, k: usize, fwd: bool) -> Val {
     for _ in 0..k {
         if fwd { it.next(); } else { it.next_back(); }
@@ -118,6 +127,14 @@ pub fn dispatch(op: &str, a: &[Val]) -> Option<Val> {
         "it.weeks" => (|| {
             let d = dec_date(a.get(0)?)?; let k = small(a.get(1)?)?; let f = dir(a.get(2)?)?; let cap = small(a.get(3)?)?;
             Some(observe(d.iter_weeks(), k, f, cap))
+        })(),
+        "it.dnth" => (|| {
+            let d = dec_date(a.get(0)?)?; let n = usize::try_from(a.get(1)?.u64()?).ok()?; let f = dir(a.get(2)?)?; let cap = small(a.get(3)?)?;
+            Some(observe_nth(d.iter_days(), n, f, cap))
+        })(),
+        "it.wnth" => (|| {
+            let d = dec_date(a.get(0)?)?; let n = usize::try_from(a.get(1)?.u64()?).ok()?; let f = dir(a.get(2)?)?; let cap = small(a.get(3)?)?;
+            Some(observe_nth(d.iter_weeks(), n, f, cap))
         })(),
         "it.dhint" => (|| {
             let d = dec_date(a.get(0)?)?; let k = small(a.get(1)?)?; let f = dir(a.get(2)?)?;
